@@ -1638,12 +1638,161 @@ pub fn generate(rng: &mut Rng, tier: Tier, emit: &mut dyn FnMut(String)) {
             }
         }
     }
+    // … and complete bodies around and beyond the up-front allocation, followed by the start of the next frame: the
+    // body returned must be exactly the announced bytes and the next frame must be left in the reader
+    for ln in [0usize, 1, 5, 65_536, (1 << 20) - 1, 1 << 20, (1 << 20) + 1, (2 << 20) + 1, 3 << 20] {
+        for trailing in [&[][..], &[0x84, 0, 0, 0, 2, 0, 0, 0, 0][..], &[0xff][..]] {
+            if ln > (1 << 20) + 1 && trailing.len() == 1 {
+                continue;
+            }
+            let mut fr = vec![0x84, 0, 0, 7, 8];
+            fr.extend_from_slice(&(ln as u32).to_be_bytes());
+            fr.extend((0..ln).map(|i| (i.wrapping_mul(31) % 251) as u8));
+            fr.extend_from_slice(trailing);
+            emit(format!("h {}", hex(&fr)));
+        }
+    }
     {
         // a body that outgrows the up-front allocation twice (2.5 MiB of a 3 MiB announcement)
         let mut fr = vec![0x84, 0, 0, 0, 2];
         fr.extend_from_slice(&(3u32 << 20).to_be_bytes());
         fr.extend(std::iter::repeat(1u8).take(5 << 19));
         emit(format!("h {}", hex(&fr)));
+    }
+
+    // columns shaped for the derive-generated row / UDT targets (by-name and in-order flavours): names a / b / u,
+    // UDT fields x / y in every arrangement, with complete, null, short, long and cut cells
+    {
+        fn udt_ty(fields: &[(&str, u16)]) -> Vec<u8> {
+            let mut b = B::default();
+            b.short(0x30);
+            b.string(b"ks");
+            b.string(b"t");
+            b.short(fields.len() as u16);
+            for (n, id) in fields {
+                b.string(n.as_bytes());
+                b.short(*id);
+            }
+            b.out
+        }
+        fn cellv(v: Option<&[u8]>) -> Vec<u8> {
+            match v {
+                None => (-1i32).to_be_bytes().to_vec(),
+                Some(v) => {
+                    let mut o = (v.len() as i32).to_be_bytes().to_vec();
+                    o.extend_from_slice(v);
+                    o
+                }
+            }
+        }
+        let int_ty = vec![0u8, 0x09];
+        let text_ty = vec![0u8, 0x0d];
+        let udts: Vec<Vec<u8>> = vec![
+            udt_ty(&[("x", 9), ("y", 0x0d)]),
+            udt_ty(&[("y", 0x0d), ("x", 9)]),
+            udt_ty(&[("x", 9)]),
+            udt_ty(&[("y", 0x0d)]),
+            udt_ty(&[("x", 9), ("y", 0x0d), ("z", 9)]),
+            udt_ty(&[("x", 0x0d), ("y", 9)]),
+            udt_ty(&[]),
+        ];
+        let mut layouts: Vec<Vec<(&str, Vec<u8>)>> = vec![
+            vec![("a", int_ty.clone()), ("b", text_ty.clone())],
+            vec![("b", text_ty.clone()), ("a", int_ty.clone())],
+            vec![("a", int_ty.clone()), ("b", text_ty.clone()), ("c", int_ty.clone())],
+            vec![("a", int_ty.clone())],
+            vec![("a", text_ty.clone()), ("b", int_ty.clone())],
+            vec![("q", int_ty.clone()), ("r", text_ty.clone())],
+        ];
+        for u in &udts {
+            layouts.push(vec![("a", int_ty.clone()), ("u", u.clone())]);
+            layouts.push(vec![("u", u.clone())]);
+            let mut l = vec![0u8, 0x20];
+            l.extend_from_slice(u);
+            layouts.push(vec![("l", l)]);
+        }
+        let int_cells: [Option<&[u8]>; 5] = [Some(&[0, 0, 0, 7]), None, Some(&[]), Some(&[0, 0, 7]), Some(&[0, 0, 0, 0, 7])];
+        let text_cells: [Option<&[u8]>; 4] = [Some(b"hi"), None, Some(&[]), Some(&[0xff, 0xfe])];
+        let mut udt_cells: Vec<Option<Vec<u8>>> = vec![None, Some(vec![])];
+        for a in int_cells {
+            for b in text_cells {
+                let mut v = cellv(a);
+                udt_cells.push(Some(v.clone()));
+                v.extend_from_slice(&cellv(b));
+                udt_cells.push(Some(v.clone()));
+                let mut w = cellv(b);
+                w.extend_from_slice(&cellv(a));
+                udt_cells.push(Some(w));
+                v.extend_from_slice(&cellv(Some(&[0, 0, 0, 1])));
+                udt_cells.push(Some(v.clone()));
+                v.push(0);
+                udt_cells.push(Some(v));
+            }
+        }
+        udt_cells.push(Some(vec![0, 0, 0]));
+        udt_cells.push(Some(vec![0, 0, 0, 9, 1]));
+        udt_cells.push(Some(vec![0x7f, 0xff, 0xff, 0xff]));
+        for layout in &layouts {
+            let mut head = B::default();
+            head.int(2);
+            head.int(1);
+            head.int(layout.len() as i32);
+            head.string(b"ks");
+            head.string(b"tb");
+            for (n, ty) in layout {
+                head.string(n.as_bytes());
+                head.raw(ty);
+            }
+            // candidate cells per column
+            let per_col: Vec<Vec<Vec<u8>>> = layout
+                .iter()
+                .map(|(_, ty)| {
+                    if *ty == int_ty {
+                        int_cells.iter().map(|c| cellv(*c)).collect()
+                    } else if *ty == text_ty {
+                        text_cells.iter().map(|c| cellv(*c)).collect()
+                    } else if ty[1] == 0x20 {
+                        // a list of UDT values: two elements
+                        udt_cells
+                            .iter()
+                            .map(|c| {
+                                let mut v = 2i32.to_be_bytes().to_vec();
+                                v.extend_from_slice(&cellv(c.as_deref()));
+                                v.extend_from_slice(&cellv(Some(&[0, 0, 0, 4, 0, 0, 0, 1, 0, 0, 0, 1, b'z'])));
+                                cellv(Some(&v))
+                            })
+                            .collect()
+                    } else {
+                        udt_cells.iter().map(|c| cellv(c.as_deref())).collect()
+                    }
+                })
+                .collect();
+            let most = per_col.iter().map(|c| c.len()).max().unwrap_or(0);
+            for i in 0..most {
+                // row 0 complete and plain, row 1 with the i-th candidate of every column, row 2 plain again
+                let mut rows = vec![];
+                for r in 0..3 {
+                    for c in &per_col {
+                        rows.extend_from_slice(&c[if r == 1 { i % c.len() } else { 0 }]);
+                    }
+                }
+                let mut b = B::default();
+                b.raw(&head.out);
+                b.int(3);
+                b.raw(&rows);
+                emit(case_line(&nofeat, false, 'n', None, &frame_bytes(0, 0, 8, &b.out)));
+                if i < 3 {
+                    // every cut of the rows region (rows_count stays 3)
+                    for cut in 0..rows.len() {
+                        let mut b = B::default();
+                        b.raw(&head.out);
+                        b.int(3);
+                        b.raw(&rows[..cut]);
+                        emit(case_line(&nofeat, false, 'n', None, &frame_bytes(0, 0, 8, &b.out)));
+                    }
+                }
+            }
+        }
     }
 
     // the type strings of the schema tables (`map_string_to_cql_type`, fetching.rs; nesting limit of fix 7c5e882)
